@@ -13,18 +13,42 @@
 (*   boundsFromRawCache : t_min / t_max read the stacked-array cache without refreshing it     *)
 (*                        (stale after add_interpolant, None before the first refresh) and      *)
 (*                        never include the start of the first piece                            *)
+(*   bisectAfterTurn    : (the code before repair 654424a; no longer in CodeDev) the lookup      *)
+(*                        trusts the bisection over the end times even when the pieces run in     *)
+(*                        both directions of time, i.e. after integrate() calls that turned round  *)
+(* The lookup is the real one: BisS / BisV transcribe search_bisection / search_bisection_vec      *)
+(* (they differ in >= / > at the midpoint and in the early exits, which matters exactly when the    *)
+(* end times are not ordered); once pieces of both orientations are stored the most recent piece     *)
+(* containing the query answers, and only a query no piece contains falls back to the bisection.     *)
 EXTENDS Integers, Sequences, FiniteSets, TLC
 CONSTANT Dev
-DevNames == {"ctorStoresStart", "boundsFromRawCache"}
-CodeDev == DevNames
+DevNames == {"ctorStoresStart", "boundsFromRawCache", "bisectAfterTurn"}
+CodeDev == {"ctorStoresStart", "boundsFromRawCache"}
 None == -99
 Last(q) == q[Len(q)]
 Front(q) == SubSeq(q, 1, Len(q) - 1)
 Tail1(q) == SubSeq(q, 2, Len(q))
 SeqMin(q) == CHOOSE x \in {q[i] : i \in 1..Len(q)} : \A j \in 1..Len(q) : x <= q[j]
 SeqMax(q) == CHOOSE x \in {q[i] : i \in 1..Len(q)} : \A j \in 1..Len(q) : x >= q[j]
-(* first 0-based index whose element is >= x (Len if none): the bisection's contract, C17 *)
-FirstGE(q, x) == IF \E i \in 1..Len(q) : q[i] >= x THEN (CHOOSE i \in 1..Len(q) : q[i] >= x /\ \A j \in 1..(i - 1) : q[j] < x) - 1 ELSE Len(q)
+(* search_bisection(array, val), 0-based result: on a strictly increasing array the first index whose element is >= val, *)
+(* clipped to the last index (the contract of C17); on any other array whatever the loop below returns                      *)
+BisS(arr, v) ==
+    LET n == Len(arr)
+        RECURSIVE Loop(_, _)
+        Loop(lo, hi) == IF hi - lo > 1 THEN LET mid == (hi + lo) \div 2 IN IF v >= arr[mid + 1] THEN Loop(mid, hi) ELSE Loop(lo, mid)
+                        ELSE IF arr[lo + 1] < v THEN hi ELSE lo
+    IN IF v <= arr[1] THEN 0 ELSE IF v >= arr[n] THEN n - 1 ELSE Loop(0, n - 1)
+(* search_bisection_vec, one component *)
+BisV(arr, v) ==
+    LET n == Len(arr)
+        RECURSIVE Loop(_, _)
+        Loop(lo, hi) == IF hi - lo > 1 THEN LET mid == (hi + lo) \div 2 IN IF v > arr[mid + 1] THEN Loop(mid, hi) ELSE Loop(lo, mid)
+                        ELSE IF arr[lo + 1] < v THEN hi ELSE lo
+    IN Loop(0, n - 1)
+Contains(p, q) == (p.a <= q /\ q <= p.b) \/ (p.b <= q /\ q <= p.a)
+(* pieces of both orientations are stored: some integrate() call ran against an earlier one *)
+Turned(ps) == (\E i \in 1..Len(ps) : ps[i].b > ps[i].a) /\ (\E i \in 1..Len(ps) : ps[i].b < ps[i].a)
+LatestContaining(ps, q) == CHOOSE i \in 1..Len(ps) : Contains(ps[i], q) /\ \A j \in (i + 1)..Len(ps) : ~Contains(ps[j], q)
 Neg(q) == [i \in 1..Len(q) |-> -q[i]]
 Min2(a, b) == IF a < b THEN a ELSE b
 
@@ -38,10 +62,14 @@ Lookup(s, q, viaCache) ==       \* <<state after (cache refresh), outcome>>
     IF ~s.has THEN <<s, Err("ValueError")>>
     ELSE LET backward == Len(s.ts) > 1 /\ Last(s.ts) < s.ts[1]
              s1 == IF viaCache \/ backward THEN Refreshed(s) ELSE s
-             k == IF backward THEN FirstGE(Neg(s.ts), -q) ELSE FirstGE(s.ts, q)
+             k == IF Len(s.ts) = 0 THEN 0
+                  ELSE IF viaCache THEN (IF backward THEN BisV(Neg(s.ts), -q) ELSE BisV(s.ts, q))
+                  ELSE (IF backward THEN BisS(Neg(s.ts), -q) ELSE BisS(s.ts, q))
              idx == Min2(k, Len(s.ps) - 1)
-         IN  IF Len(s.ps) = 0 THEN <<s1, Err("error")>>
-             ELSE <<s1, Ok(s.ps[(IF idx < 0 THEN Len(s.ps) + idx ELSE idx) + 1].id)>>
+             byBisection == (IF idx < 0 THEN Len(s.ps) + idx ELSE idx) + 1
+             turn == "bisectAfterTurn" \notin Dev /\ Turned(s.ps) /\ \E i \in 1..Len(s.ps) : Contains(s.ps[i], q)
+         IN  IF Len(s.ps) = 0 \/ Len(s.ts) = 0 THEN <<s1, Err("error")>>
+             ELSE <<s1, Ok(s.ps[IF turn THEN LatestContaining(s.ps, q) ELSE byBisection].id)>>
 DApply(s, o) ==
     CASE o.op = "new" -> <<Empty, Ok(0)>>
       [] o.op = "ctor" ->        \* o.times: N+1 ticks, strictly monotone; pieces [times[i], times[i+1]]
